@@ -254,7 +254,7 @@ impl RdbEngine {
                     // Write expiration if present
                     if let Some(expire) = expire_time {
                         buffer.push(RdbOpcode::ExpireTimeMs as u8);
-                        let timestamp = expire.duration_since(UNIX_EPOCH).unwrap().as_millis() as u64;
+                        let timestamp = expire.duration_since(UNIX_EPOCH).unwrap().as_millis().min(u64::MAX as u128) as u64;
                         buffer.extend_from_slice(&timestamp.to_le_bytes());
                     }
                     
@@ -555,10 +555,12 @@ impl<W: Write> RdbWriter<W> {
     fn write_key_value(&mut self, key: &[u8], value: &Value, ttl: Option<Duration>) -> io::Result<()> {
         // Write expiry if present
         if let Some(ttl) = ttl {
-            let expiry_ms = SystemTime::now()
+            // A huge time-to-live (PEXPIRE k 18446744073709551615) must not wrap into the past
+            let expiry_ms = (SystemTime::now()
                 .duration_since(UNIX_EPOCH)
                 .unwrap()
-                .as_millis() as u64 + ttl.as_millis() as u64;
+                .as_millis() as u64)
+                .saturating_add(ttl.as_millis().min(u64::MAX as u128) as u64);
             
             self.write_byte(RdbOpcode::ExpireTimeMs as u8)?;
             self.write_u64_le(expiry_ms)?;
